@@ -1,4 +1,5 @@
 import SafeNet.Driver.Util
+import SafeNet.Base.Sha256
 import SafeNet.Model.Fetcher
 /-! Line-protocol driver for the replication-fetcher model (C08). See `harness/hnet/src/bin/fetcher.rs`. -/
 namespace SafeNet.Driver.Fetcher
@@ -69,6 +70,14 @@ def step (d : DState) (ws : List String) : DState × String :=
     match k.toNat?, v.toNat? with
     | some k, some v => ({ d with dists := (k, v) :: d.dists.filter (·.1 ≠ k) }, "ok")
     | _, _ => (d, "bad-op")
+  | ["key", k, v, ab, sb] =>
+    -- the distance with the bytes it is the distance of: it must be the XOR of their SHA-256 digests (`Base/Sha256`)
+    match k.toNat?, v.toNat?, unhex ab, unhex sb with
+    | some k, some v, some ab, some sb =>
+      if v = SafeNet.Sha256.hashNat ab ^^^ SafeNet.Sha256.hashNat sb then
+        ({ d with dists := (k, v) :: d.dists.filter (·.1 ≠ k) }, "ok")
+      else (d, "dist-mismatch")
+    | _, _, _, _ => (d, "bad-op")
   | ["local", k, t] =>
     match k.toNat?, t.toNat? with
     | some k, some t => ({ d with locals := (k, t) :: d.locals.filter (·.1 ≠ k) }, "ok")
